@@ -43,6 +43,13 @@ dropped from) `COMPOSE_TYPE_SUFFIXES` breaks this obligation. -/
 theorem C15_table_exact : (∀ p ∈ Gen.COMPOSE_TYPE_SUFFIXES, p ∈ Spec.documentedSuffixes)
     ∧ (∀ p ∈ Spec.documentedSuffixes, p ∈ Gen.COMPOSE_TYPE_SUFFIXES) := by decide
 
+/-- **The encoder is EXACTLY the documented one**: the compose types are the documented five and each is written with
+its documented suffix (none, `.n`, `.t`, `.ci`, `.d`) — both inclusions, on the regenerated tables. -/
+theorem C15_encoder_exact : (∀ p ∈ Gen.COMPOSE_TYPE_ENCODER, p ∈ Spec.documentedEncoder)
+    ∧ (∀ p ∈ Spec.documentedEncoder, p ∈ Gen.COMPOSE_TYPE_ENCODER)
+    ∧ (∀ t ∈ Gen.COMPOSE_TYPES, t ∈ Spec.documentedEncoder.map Prod.fst)
+    ∧ (∀ t ∈ Spec.documentedEncoder.map Prod.fst, t ∈ Gen.COMPOSE_TYPES) := by decide
+
 theorem lookup_mem {k v : Str} : ∀ (l : List (Str × Str)), l.lookup k = some v → (k, v) ∈ l := by
   intro l
   induction l with
